@@ -56,7 +56,14 @@ Encoding (modelling devices, all of them):
 * a pass of the `for` loop that serves nothing while `total_packets != 0` would be repeated for ever without a `yield`
   (a Python hang; it needs a packet of a flow that is not in the table or has a priority `≤ 0`): the model raises `Hang`
   there; the theorems show that this point is never reached when every flow of the workload has a positive priority;
-* the source is the process `for (gap, id) in arrivals: yield env.timeout(gap); sp.put(packet id)`.
+* the source is the process `for (gap, id) in arrivals: yield env.timeout(gap); sp.put(packet id)`;
+* the local state of a suspended generator names its `yield` and the locals it still needs (the position `i` of the `for`
+  iterator, the `packet` it holds); no generator reads `env.now`, so none carries the clock.
+
+Besides the program the file holds what the theorems of `Props/C13K.lean` are stated with: the observations of a trace,
+the executable abstraction function `absSP` (kernel state ↦ LTS state), the property restated as an executable oracle over
+the `put` / `serve` / `out` history (`ostep`, `orun`), and a label inference with an executable refinement check
+(`refineCheck`) for the `example`s.
 -/
 
 /-- local states of the generator functions (where each one is suspended) -/
